@@ -1420,7 +1420,10 @@ class ProgramData:
                         set_to = True
                         flag_name = option_value
                     else:
-                        flag_name, set_to = option_value.split("=")
+                        try:
+                            flag_name, set_to = option_value.split("=")
+                        except ValueError as e:
+                            raise RuntimeError("Invalid value for flag " + option_value) from e
                         set_to = set_to in ["yes", "on"]
                     option_value = flag_name
                     flag_name = flag_name.upper().replace("-", "_")
